@@ -197,6 +197,12 @@ class Engine(GenericConcreteEngine[Callable[..., Any]]):
             return result
         match relation:
             case UnaryOperationRelation(operation=operation, target=target):
+                if not isinstance(
+                    operation, (Calculation, Deduplication, Projection, Selection, Slice, Sort)
+                ):
+                    # The hook receives the target relation and executes it
+                    # itself; do not execute it here as well.
+                    return self.apply_custom_unary_operation(operation, target)
                 target_rows = self.execute(target)
                 match operation:
                     case Calculation(tag=tag, expression=expression):
@@ -235,8 +241,6 @@ class Engine(GenericConcreteEngine[Callable[..., Any]]):
                                 reverse=not ascending,
                             )
                         return RowSequence(rows_list)
-                    case _:
-                        return self.apply_custom_unary_operation(operation, target)
             case BinaryOperationRelation(operation=operation, lhs=lhs, rhs=rhs):
                 match operation:
                     case Chain():
